@@ -185,6 +185,7 @@ def exec_roundtrip(c):
     t = mk_rt_tree(c)
     src = c["src"]
     kw = dict(id_offset=c["off"], comments=bool(c["wc"]), source=(False if src == "" else (True if src == "Unknown" else src)))
+    before_comments = list(t.comments)
     if c["kind"] == 2:
         p = os.path.join(scratch(), "rt%d.swc" % lib.vid(c))
         try:
@@ -199,8 +200,10 @@ def exec_roundtrip(c):
         t2 = Tree.from_swc(io.StringIO(text) if c["kind"] == 0 else io.BytesIO(text.encode("utf-8")))
     text2 = t2.to_swc(source=False, id_offset=c["off"])
     t3 = Tree.from_swc(io.StringIO(text2))
+    # writing is reading: the same object written again (same options) gives the same text, and its own comment list is what it was
+    again = int(t.to_swc(**kw) == text and list(t.comments) == before_comments)
     return {"wl": written_lines(text), "rows": rows_of_tree(t2), "com": [proj_comment(x) for x in t2.comments],
-            "rows2": rows_of_tree(t3), "com2": [proj_comment(x) for x in t3.comments]}
+            "rows2": rows_of_tree(t3), "com2": [proj_comment(x) for x in t3.comments], "again": again}
 
 
 BB = 10 ** 8
